@@ -17,7 +17,7 @@ CONFIG = {
                  "overlapping savers: open(O_CREAT|O_TRUNC)/write/rename on names, inodes and descriptors, any interleaving"],
     "assumptions": [
         "trees are grown from NewFavRaw(nil) (LineID/FolderID equal NLines/NFolders; Root.FavNum is the number of adds); entry types other than board/line/folder and nil Favh entries are not representable",
-        "the legacy .fav4 migration path (TryFav4Load) and Load on a non-regular file are out of scope",
+        "legacy .fav4 migration: board/line levels are judged; images holding a folder entry (the real code cannot read them) and negative-count / unknown-type images are mirrored and recorded, not judged; Load on a non-regular file is out of scope",
         "a crash is the death of the process; the kernel and the file system keep running",
         "write errors are produced with RLIMIT_FSIZE (EFBIG at a byte offset, SIGXFSZ ignored) in a child process; ENOSPC / EDQUOT / EIO take the same error-return path in the code and are not produced separately",
         "GetFavorites: mtimes and retrieveTS are positive Time4 values; the .fav4 fallback of getFavoritesGetMTime is out of scope (no .fav4 present); contents longer than the largest legal file (57350 bytes) are recorded, not judged",
